@@ -31,5 +31,23 @@ package domutil
 //@   ensures implies(len(nodes) > 0 && old(sameTree(nodes)), result != nil && fresh(result) && result.Parent == nil)
 //@   ensures implies(len(nodes) == 1, result == nil || result.Type == old(nodes[0].Type))
 
+
+//@ func IsProbablyVisible(node)
+//@   requires node != nil
+//@   pure
+//@   reads localrows html.Node.Attr, local html.Node.Type, local html.Node.Data, cell(Ref)
+//@   ensures [C04] #visibility-rule implies(!result, GetDisplayStyle(node) == "none" || dom.HasAttribute(node, "hidden") || rxVisibilityHidden.MatchString(dom.GetAttribute(node, "style")) || dom.GetAttribute(node, "aria-hidden") == "true")
+//@   ensures [C04] #hidden-means-invisible implies(GetDisplayStyle(node) == "none" || dom.HasAttribute(node, "hidden") || rxVisibilityHidden.MatchString(dom.GetAttribute(node, "style")), !result)
+
 //@ func GetDisplayStyle(node)
 //@   requires node != nil
+//@   pure
+//@   reads localrows html.Node.Attr, local html.Node.Type, local html.Node.Data, cell(Ref)
+//@   ensures [C04] #non-rendered-tags implies(!rxMatches(rxDisplay, dom.GetAttribute(node, "style")) && (dom.TagName(node) == "script" || dom.TagName(node) == "style" || dom.TagName(node) == "meta" || dom.TagName(node) == "link"), result == "none")
+//@   ensures [C03] #inline-tags implies(!rxMatches(rxDisplay, dom.GetAttribute(node, "style")) && (dom.TagName(node) == "b" || dom.TagName(node) == "i" || dom.TagName(node) == "em" || dom.TagName(node) == "strong" || dom.TagName(node) == "span" || dom.TagName(node) == "u" || dom.TagName(node) == "code" || dom.TagName(node) == "font" || dom.TagName(node) == "a"), result == "inline")
+
+//@ func GetOutputNodes$1(node)
+//@   requires node != nil && outputNodes != nil
+//@   ensures [C04,C05] #invisible-elements-excluded implies(node.Type == 3 && !IsProbablyVisible(node), !result && len(*outputNodes) == old(len(*outputNodes)))
+//@   ensures [C07] #visible-kept implies(node.Type == 3 && IsProbablyVisible(node), result && len(*outputNodes) == old(len(*outputNodes)) + 1)
+//@   ensures [C04] #only-text-and-elements implies(node.Type != 3 && node.Type != 1, !result && len(*outputNodes) == old(len(*outputNodes)))
